@@ -1,3 +1,234 @@
+import Bch.Proofs.CoinSet
+/-
+C19 — coin selection returns only valid selections and coin-set totals never drift.
+
+Model: `Bch.Model.CoinSet` (`/repo/coinset/coins.go`). Vocabulary from `Bch.Proofs.CoinSet`:
+
+* `sumV l`  = `(l.map Coin.value).sum`,  `sumVA l` = `(l.map Coin.valueAge).sum`
+* `Inv s`   = `s.totalValue = sumV s.coins ∧ s.totalValueAge = sumVA s.coins`
+* `run s ops` = the state after applying the operations `ops` (with `stepOp`) to `s`
+* `SubMultiset s l` = `∃ p, p.Perm l ∧ s.Sublist p` — `s` uses every element of `l` at most as often as it occurs
+  in `l` ("distinct coins taken from the offered list"); implies `count`-wise ≤, `⊆`, and `Nodup` if `l.Nodup`.
+
+`NewMsgTxWithInputCoins` is not part of this model (covered by the differential harness only).
+-/
 namespace Bch.Props.C19
-theorem placeholder : True := trivial
+open Bch Bch.Model.TxSort Bch.Model.CoinSet Bch.Proofs.TxSort Bch.Proofs.CoinSet
+
+/-! ### totals never drift (histories) -/
+
+/-- **C19_totals.** After *any* sequence of pushes, pops and shifts starting from the empty set, the two running
+    totals are the sums over the current contents. -/
+theorem C19_totals (ops : List Op) :
+    (run {} ops).totalValue = ((run {} ops).coins.map Coin.value).sum ∧
+    (run {} ops).totalValueAge = ((run {} ops).coins.map Coin.valueAge).sum :=
+  run_inv {} ops inv_empty
+
+/-- the invariant is inductive: it is preserved by every single operation from every state satisfying it -/
+theorem C19_totals_step (s : CS) (o : Op) (h : Inv s) : Inv (stepOp s o).1 := stepOp_inv s o h
+
+example : Inv {} := inv_empty
+
+/-- what the three operations do to the contents: push appends; pop removes and returns the last coin; shift
+    removes and returns the first; on the empty set pop and shift return `none` and change nothing -/
+theorem C19_ops (s : CS) (c : Coin) :
+    (s.push c).coins = s.coins ++ [c] ∧
+    (s.pop.1.coins = s.coins.dropLast ∧ s.pop.2 = s.coins.getLast?) ∧
+    (s.shift.1.coins = s.coins.tail ∧ s.shift.2 = s.coins.head?) ∧
+    (s.coins = [] → s.pop = (s, none) ∧ s.shift = (s, none)) := by
+  refine ⟨rfl, ?_, ?_, fun h => ⟨pop_of_nil s h, shift_of_nil s h⟩⟩
+  · rcases List.eq_nil_or_concat s.coins with hn | ⟨l, x, hl⟩
+    · rw [pop_of_nil s hn]; simp [hn]
+    · rw [List.concat_eq_append] at hl
+      rw [pop_of_snoc s l x hl]; simp [hl]
+  · cases hc : s.coins with
+    | nil => rw [shift_of_nil s hc]; simp [hc]
+    | cons x l => rw [shift_of_cons s x l hc]; simp
+
+/-- `CS.ofList l` contains exactly `l`, with the right totals -/
+theorem C19_ofList (l : List Coin) :
+    (CS.ofList l).coins = l ∧ (CS.ofList l).totalValue = sumV l ∧ (CS.ofList l).totalValueAge = sumVA l := by
+  rw [ofList_eq]; exact ⟨rfl, rfl, rfl⟩
+
+-- a history with pops/shifts on the empty set, a pop after pushes, and a shift
+example : run {} [.pop, .shift, .push ⟨1, 5, 2⟩, .push ⟨2, 7, 0⟩, .push ⟨3, 1, 1⟩, .shift, .pop, .pop, .pop] = {} ∧
+    run {} [.push ⟨1, 5, 2⟩, .push ⟨2, 7, 3⟩, .push ⟨3, 1, 1⟩, .shift] = ⟨[⟨2, 7, 3⟩, ⟨3, 1, 1⟩], 8, 22⟩ := by
+  decide
+
+/-! ### min-index: the shortest qualifying prefix -/
+
+/-- **C19_minIndex.** The selector succeeds with `cs` iff `cs` is the shortest non-empty prefix of the offered list,
+    of at most `maxInputs` coins, whose total equals the target or exceeds it by at least `minChange`; the totals
+    of `cs` are the sums over that prefix. -/
+theorem C19_minIndex (maxInputs minChange target : Int) (coins : List Coin) (cs : CS) :
+    minIndex maxInputs minChange target coins = some cs ↔
+      ∃ k, 1 ≤ k ∧ k ≤ coins.length ∧ (k : Int) ≤ maxInputs ∧
+        satisfiesTargetValue target minChange (sumV (coins.take k)) = true ∧
+        (∀ j, 1 ≤ j → j < k → satisfiesTargetValue target minChange (sumV (coins.take j)) = false) ∧
+        cs.coins = coins.take k ∧ cs.totalValue = sumV (coins.take k) ∧
+        cs.totalValueAge = sumVA (coins.take k) := by
+  rw [minIndex_some_iff]
+  constructor
+  · rintro ⟨k, ⟨h1, h2, h3, h4, h5⟩, rfl⟩
+    exact ⟨k, h1, h2, h3, h4, h5, rfl, rfl, rfl⟩
+  · rintro ⟨k, h1, h2, h3, h4, h5, h6, h7, h8⟩
+    refine ⟨k, ⟨h1, h2, h3, h4, h5⟩, ?_⟩
+    cases cs; simp_all
+
+/-- failure iff no prefix of at most `maxInputs` coins qualifies -/
+theorem C19_minIndex_none (maxInputs minChange target : Int) (coins : List Coin) :
+    minIndex maxInputs minChange target coins = none ↔
+      ∀ k, 1 ≤ k → k ≤ coins.length → (k : Int) ≤ maxInputs →
+        satisfiesTargetValue target minChange (sumV (coins.take k)) = false :=
+  minIndex_none_iff maxInputs minChange target coins
+
+/-- consequences for a successful min-index selection: a prefix of the offer (so every position is used at most
+    once), at most `maxInputs` coins, totals exact, target rule met -/
+theorem C19_minIndex_valid (maxInputs minChange target : Int) (coins : List Coin) (cs : CS)
+    (h : minIndex maxInputs minChange target coins = some cs) :
+    cs.coins <+: coins ∧ cs.coins ≠ [] ∧ (cs.coins.length : Int) ≤ maxInputs ∧ Inv cs ∧
+    (cs.totalValue = target ∨ cs.totalValue ≥ target + minChange) := by
+  obtain ⟨k, h1, h2, h3, h4, _, h6, h7, h8⟩ := (C19_minIndex _ _ _ _ _).1 h
+  refine ⟨h6 ▸ List.take_prefix _ _, ?_, ?_, ⟨by rw [h7, h6], by rw [h8, h6]⟩, ?_⟩
+  · intro hnil
+    have := congrArg List.length h6
+    rw [hnil, List.length_take] at this
+    simp at this; omega
+  · rw [h6, List.length_take]; omega
+  · rw [h7]
+    unfold satisfiesTargetValue at h4
+    simp only [Bool.or_eq_true, beq_iff_eq, decide_eq_true_eq] at h4
+    exact h4
+
+example : minIndex 3 2 10 [⟨0, 4, 1⟩, ⟨1, 7, 1⟩, ⟨2, 1, 1⟩, ⟨3, 5, 1⟩] =
+      some ⟨[⟨0, 4, 1⟩, ⟨1, 7, 1⟩, ⟨2, 1, 1⟩], 12, 12⟩ ∧   -- 4+7 = 11 is neither 10 nor ≥ 12
+    minIndex 2 2 10 [⟨0, 4, 1⟩, ⟨1, 7, 1⟩, ⟨2, 1, 1⟩, ⟨3, 5, 1⟩] = none ∧
+    minIndex 0 0 0 [] = none := by decide
+
+/-! ### min-number and max-value-age: the same scan on a sorted copy -/
+
+/-- **C19_minNumber.** The selection is the shortest qualifying prefix of the offer sorted by descending value;
+    that sorted list is a permutation of the offer and non-increasing in value. -/
+theorem C19_minNumber (maxInputs minChange target : Int) (coins : List Coin) (cs : CS) :
+    ((sortByValueDesc coins).Perm coins ∧ (sortByValueDesc coins).Pairwise (fun a b => b.value ≤ a.value)) ∧
+    (minNumber maxInputs minChange target coins = some cs ↔
+      ∃ k, 1 ≤ k ∧ k ≤ coins.length ∧ (k : Int) ≤ maxInputs ∧
+        satisfiesTargetValue target minChange (sumV ((sortByValueDesc coins).take k)) = true ∧
+        (∀ j, 1 ≤ j → j < k →
+          satisfiesTargetValue target minChange (sumV ((sortByValueDesc coins).take j)) = false) ∧
+        cs.coins = (sortByValueDesc coins).take k ∧ cs.totalValue = sumV ((sortByValueDesc coins).take k) ∧
+        cs.totalValueAge = sumVA ((sortByValueDesc coins).take k)) := by
+  refine ⟨⟨sortByValueDesc_perm coins, sortByValueDesc_sorted coins⟩, ?_⟩
+  unfold minNumber
+  rw [C19_minIndex, (sortByValueDesc_perm coins).length_eq]
+
+/-- **C19_maxValueAge.** The same for the offer sorted by descending value-age. -/
+theorem C19_maxValueAge (maxInputs minChange target : Int) (coins : List Coin) (cs : CS) :
+    ((sortByValueAgeDesc coins).Perm coins ∧
+      (sortByValueAgeDesc coins).Pairwise (fun a b => b.valueAge ≤ a.valueAge)) ∧
+    (maxValueAge maxInputs minChange target coins = some cs ↔
+      ∃ k, 1 ≤ k ∧ k ≤ coins.length ∧ (k : Int) ≤ maxInputs ∧
+        satisfiesTargetValue target minChange (sumV ((sortByValueAgeDesc coins).take k)) = true ∧
+        (∀ j, 1 ≤ j → j < k →
+          satisfiesTargetValue target minChange (sumV ((sortByValueAgeDesc coins).take j)) = false) ∧
+        cs.coins = (sortByValueAgeDesc coins).take k ∧
+        cs.totalValue = sumV ((sortByValueAgeDesc coins).take k) ∧
+        cs.totalValueAge = sumVA ((sortByValueAgeDesc coins).take k)) := by
+  refine ⟨⟨sortByValueAgeDesc_perm coins, sortByValueAgeDesc_sorted coins⟩, ?_⟩
+  unfold maxValueAge
+  rw [C19_minIndex, (sortByValueAgeDesc_perm coins).length_eq]
+
+/-- failure of the two sorted selectors iff no prefix of the sorted list qualifies -/
+theorem C19_sorted_none (maxInputs minChange target : Int) (coins : List Coin) :
+    (minNumber maxInputs minChange target coins = none ↔
+      ∀ k, 1 ≤ k → k ≤ coins.length → (k : Int) ≤ maxInputs →
+        satisfiesTargetValue target minChange (sumV ((sortByValueDesc coins).take k)) = false) ∧
+    (maxValueAge maxInputs minChange target coins = none ↔
+      ∀ k, 1 ≤ k → k ≤ coins.length → (k : Int) ≤ maxInputs →
+        satisfiesTargetValue target minChange (sumV ((sortByValueAgeDesc coins).take k)) = false) := by
+  unfold minNumber maxValueAge
+  rw [C19_minIndex_none, C19_minIndex_none, (sortByValueDesc_perm coins).length_eq,
+    (sortByValueAgeDesc_perm coins).length_eq]
+  exact ⟨Iff.rfl, Iff.rfl⟩
+
+/-- validity of the two sorted selectors: a sub-multiset of the offer (a sublist of a permutation of it: every
+    offered coin used at most once), at most `maxInputs` coins, exact totals, target rule met -/
+theorem C19_sorted_valid (maxInputs minChange target : Int) (coins : List Coin) (cs : CS)
+    (h : minNumber maxInputs minChange target coins = some cs ∨
+         maxValueAge maxInputs minChange target coins = some cs) :
+    (∃ p, p.Perm coins ∧ cs.coins.Sublist p) ∧ (coins.Nodup → cs.coins.Nodup) ∧ (∀ c ∈ cs.coins, c ∈ coins) ∧
+    (cs.coins.length : Int) ≤ maxInputs ∧ Inv cs ∧
+    (cs.totalValue = target ∨ cs.totalValue ≥ target + minChange) := by
+  have key : ∀ l : List Coin, l.Perm coins → minIndex maxInputs minChange target l = some cs →
+      (∃ p, p.Perm coins ∧ cs.coins.Sublist p) ∧ (coins.Nodup → cs.coins.Nodup) ∧
+      (∀ c ∈ cs.coins, c ∈ coins) ∧ (cs.coins.length : Int) ≤ maxInputs ∧ Inv cs ∧
+      (cs.totalValue = target ∨ cs.totalValue ≥ target + minChange) := by
+    intro l hl hm
+    obtain ⟨hpre, _, hlen, hinv, hsat⟩ := C19_minIndex_valid _ _ _ _ _ hm
+    have hsm : SubMultiset cs.coins coins := ⟨l, hl, hpre.sublist⟩
+    exact ⟨hsm, hsm.nodup, hsm.subset, hlen, hinv, hsat⟩
+  rcases h with h | h
+  · exact key _ (sortByValueDesc_perm coins) h
+  · exact key _ (sortByValueAgeDesc_perm coins) h
+
+example : minNumber 2 0 10 [⟨0, 4, 1⟩, ⟨1, 7, 1⟩, ⟨2, 1, 9⟩, ⟨3, 5, 2⟩] =
+      some ⟨[⟨1, 7, 1⟩, ⟨3, 5, 2⟩], 12, 17⟩ ∧
+    maxValueAge 3 0 10 [⟨0, 4, 1⟩, ⟨1, 7, 1⟩, ⟨2, 1, 9⟩, ⟨3, 5, 2⟩] =
+      some ⟨[⟨3, 5, 2⟩, ⟨2, 1, 9⟩, ⟨1, 7, 1⟩], 13, 26⟩ ∧
+    minNumber 1 0 10 [⟨0, 4, 1⟩, ⟨1, 7, 1⟩] = none := by decide
+
+/-! ### min-priority -/
+
+/-- **C19_minPriority.** For every recursion budget `fuel`: if the min-priority selector succeeds then
+    (1) the selection is a sub-multiset of the offer — each offered coin used at most once; with pairwise distinct
+        offered coins it is duplicate-free and contained in the offer;
+    (2) it has at most `maxInputs` coins;
+    (3) its recorded totals are the sums over its coins and the total value equals the target or exceeds it by at
+        least `minChange`;
+    (4) if no offered coin has a negative value-age, the total value-age is at least `minAvg` per selected coin.
+    Clause (4) needs its hypothesis: see `C19_minPriority_negative_valueAge`. -/
+theorem C19_minPriority (fuel : Nat) (maxInputs minChange minAvg target : Int) (coins : List Coin) (cs : CS)
+    (h : minPriority fuel maxInputs minChange minAvg target coins = some cs) :
+    ((∃ p, p.Perm coins ∧ cs.coins.Sublist p) ∧ (coins.Nodup → cs.coins.Nodup) ∧ (∀ c ∈ cs.coins, c ∈ coins)) ∧
+    (cs.coins.length : Int) ≤ maxInputs ∧
+    (Inv cs ∧ (cs.totalValue = target ∨ cs.totalValue ≥ target + minChange)) ∧
+    ((∀ c ∈ coins, 0 ≤ c.valueAge) → minAvg * (cs.coins.length : Int) ≤ cs.totalValueAge) := by
+  have hg := minPriority_ok fuel _ _ _ _ _ _ h
+  refine ⟨⟨hg.sub, hg.sub.nodup, hg.sub.subset⟩, hg.len, ⟨hg.inv, ?_⟩, hg.avg⟩
+  have := hg.sat
+  unfold satisfiesTargetValue at this
+  simp only [Bool.or_eq_true, beq_iff_eq, decide_eq_true_eq] at this
+  exact this
+
+/-- counting form of clause (1): no coin is selected more often than it was offered -/
+theorem C19_minPriority_count (fuel : Nat) (maxInputs minChange minAvg target : Int) (coins : List Coin)
+    (cs : CS) (h : minPriority fuel maxInputs minChange minAvg target coins = some cs) (c : Coin) :
+    cs.coins.count c ≤ coins.count c :=
+  (minPriority_ok fuel _ _ _ _ _ _ h).sub.count_le c
+
+/-- the soundness of one level given any sound recursive call (the shape of the induction) -/
+theorem C19_minPriority_step (rec : Rec) (hrec : RecOK rec) : RecOK (minPriorityBody rec) :=
+  minPriorityBody_ok rec hrec
+
+/-- Without the non-negativity hypothesis clause (4) is false: the extension loop divides with truncation toward
+    zero, so a negative total value-age passes the `>= minAvg` check. (Negative confirmations/values are
+    representable in the Go `int64` fields but meaningless.) -/
+theorem C19_minPriority_negative_valueAge :
+    ∃ cs, minPriority 3 2 1 0 10 [⟨0, 10, 0⟩, ⟨1, 1, -1⟩] = some cs ∧
+      ¬ (0 * (cs.coins.length : Int) ≤ cs.totalValueAge) :=
+  ⟨⟨[⟨0, 10, 0⟩, ⟨1, 1, -1⟩], 11, -1⟩, by decide⟩
+
+-- non-vacuity. (a) success branch: the high coin alone meets the target, the extension loop skips the low coin
+-- that would break the change rule (103) and adds the one that keeps it (105); (b), (c) top-up branch: the high
+-- coins alone fail, low-priority coins are added through the recursive call; (d) failure
+example : minPriority 3 3 5 100 100 [⟨0, 100, 10⟩, ⟨1, 5, 1⟩, ⟨2, 3, 1⟩] =
+      some ⟨[⟨0, 100, 10⟩, ⟨1, 5, 1⟩], 105, 1005⟩ ∧
+    minPriority 4 3 0 300 20 [⟨0, 10, 1⟩, ⟨1, 10, 100⟩] =
+      some ⟨[⟨1, 10, 100⟩, ⟨0, 10, 1⟩], 20, 1010⟩ ∧
+    minPriority 6 4 2 4 14 [⟨0, 3, 2⟩, ⟨1, 4, 0⟩, ⟨2, 4, 3⟩, ⟨3, 4, 0⟩, ⟨4, 3, 3⟩] =
+      some ⟨[⟨0, 3, 2⟩, ⟨4, 3, 3⟩, ⟨2, 4, 3⟩, ⟨1, 4, 0⟩], 14, 27⟩ ∧
+    minPriority 4 1 0 500 20 [⟨0, 10, 1⟩, ⟨1, 10, 100⟩] = none := by decide
+example : ([⟨0, 3, 2⟩, ⟨1, 4, 0⟩, ⟨2, 4, 3⟩, ⟨3, 4, 0⟩, ⟨4, 3, 3⟩] : List Coin).Nodup ∧
+    ∀ c ∈ ([⟨0, 3, 2⟩, ⟨1, 4, 0⟩, ⟨2, 4, 3⟩, ⟨3, 4, 0⟩, ⟨4, 3, 3⟩] : List Coin), 0 ≤ c.valueAge := by decide
+
 end Bch.Props.C19
